@@ -44,14 +44,14 @@ def Call.WF (c : Call) : Prop :=
 
 /-- rows a call contributes -/
 def callRows (env : Env) (c : Call) : List Row :=
-  let e := effective env.ctxTtl c.labels
-  colsRows (fastFill c.ts.length (env.fp e.1)) c.ts c.msg c.val (fastFill c.ts.length e.2) c.tp
+  colsRows (fastFill c.ts.length (env.fp (identOf env.ctxTtl c.labels))) c.ts c.msg c.val
+    (fastFill c.ts.length (ttlOf env.ctxTtl c.labels)) c.tp
 
 theorem callRows_ofEntries (env : Env) (labels : Labels) (es : List Entry) :
     callRows env (Call.ofEntries labels es) = streamRows env labels es := by
   simp only [callRows, Call.ofEntries, streamRows, colsRows, fastFill, List.length_map]
-  generalize env.fp (effective env.ctxTtl labels).1 = fp
-  generalize (effective env.ctxTtl labels).2 = ttl
+  generalize env.fp (identOf env.ctxTtl labels) = fp
+  generalize ttlOf env.ctxTtl labels = ttl
   induction es with
   | nil => rfl
   | cons e es ih =>
@@ -83,12 +83,12 @@ theorem onEntries_ok (env : Env) (st : St) (c : Call) (h : c.WF) :
 
 /-! ### one step -/
 
-theorem foldl_series_cache (env : Env) (labels : Labels) (fp : UInt64) (ttl : Nat) (tps : List Nat)
-    (dates : List Int) (acc : Series × List (Int × UInt64)) :
+theorem foldl_series_cache (env : Env) (labels : Labels) (fp : UInt64) (ttl : Nat)
+    (dts : List (Int × Nat)) (acc : Series × List (Int × UInt64 × Nat)) :
     env.seriesBytes * acc.1.rows.length ≤ acc.1.size →
-    env.seriesBytes * (dates.foldl (seriesStep env labels fp ttl tps) acc).1.rows.length
-      ≤ (dates.foldl (seriesStep env labels fp ttl tps) acc).1.size := by
-  induction dates generalizing acc with
+    env.seriesBytes * (dts.foldl (seriesStep env labels fp ttl) acc).1.rows.length
+      ≤ (dts.foldl (seriesStep env labels fp ttl) acc).1.size := by
+  induction dts generalizing acc with
   | nil => intro h; exact h
   | cons d ds ih =>
     intro h
@@ -97,17 +97,15 @@ theorem foldl_series_cache (env : Env) (labels : Labels) (fp : UInt64) (ttl : Na
     unfold seriesStep
     split
     · exact h
-    · simp only [List.length_append, List.length_map]
-      rw [Nat.mul_add, Nat.mul_add]
-      have : env.seriesBytes * tps.length ≤ tps.length * env.seriesBytes + tps.length * env.encLen labels := by
-        rw [Nat.mul_comm]; omega
+    · simp only [List.length_append, List.length_cons, List.length_nil]
+      rw [Nat.mul_add]
       omega
 
 /-- the samples request `onEntriesPure` has open right after the appends (before the flush decision) -/
 def appended (env : Env) (st : St) (c : Call) : Samples :=
-  let e := effective env.ctxTtl c.labels
   { mMsg := st.spl.mMsg ++ c.msg, mVal := st.spl.mVal ++ c.val, mTs := st.spl.mTs ++ c.ts,
-    mFp := st.spl.mFp ++ fastFill c.ts.length (env.fp e.1), mTtl := st.spl.mTtl ++ fastFill c.ts.length e.2,
+    mFp := st.spl.mFp ++ fastFill c.ts.length (env.fp (identOf env.ctxTtl c.labels)),
+    mTtl := st.spl.mTtl ++ fastFill c.ts.length (ttlOf env.ctxTtl c.labels),
     mTp := st.spl.mTp ++ c.tp,
     size := st.spl.size + ((c.msg.take c.ts.length).map (fun m => m.length + env.rowBytes)).sum }
 
@@ -148,21 +146,23 @@ theorem onEntriesPure_cases (env : Env) (st : St) (c : Call) :
       env.seriesBytes * st.ts.rows.length ≤ st.ts.size → env.seriesBytes * ts.rows.length ≤ ts.size ∧
       (onEntriesPure env st c = ({ spl := {}, ts := {}, cache := cache }, [⟨appended env st c, ts⟩]) ∨
        onEntriesPure env st c = ({ spl := appended env st c, ts := ts, cache := cache }, [])) := by
-  let e := effective env.ctxTtl c.labels
+  let labels := identOf env.ctxTtl c.labels
+  let ttl := ttlOf env.ctxTtl c.labels
   let tps := [0, 1, 2].filter (fun t => c.tp.contains t)
-  let r := ((c.ts.map dayOf).eraseDups).foldl (seriesStep env e.1 (env.fp e.1) e.2 tps) (st.ts, st.cache)
+  let r := (((c.ts.map dayOf).eraseDups).flatMap (fun d => tps.map (fun t => (d, t)))).foldl
+    (seriesStep env labels (env.fp labels) ttl) (st.ts, st.cache)
   refine ⟨r.1, r.2, ?_⟩
   intro hs
-  refine ⟨foldl_series_cache env e.1 (env.fp e.1) e.2 tps _ (st.ts, st.cache) hs, ?_⟩
+  refine ⟨foldl_series_cache env labels (env.fp labels) ttl _ (st.ts, st.cache) hs, ?_⟩
   cases hf : env.flush ((appended env st c).size + r.1.size)
   · right
     simp only [onEntriesPure]
-    simp only [appended, r, e, tps] at hf
+    simp only [appended, r, labels, ttl, tps] at hf
     simp only [hf]
     rfl
   · left
     simp only [onEntriesPure]
-    simp only [appended, r, e, tps] at hf
+    simp only [appended, r, labels, ttl, tps] at hf
     simp only [hf, ↓reduceIte]
     rfl
 
@@ -180,7 +180,7 @@ structure ChunkOk (env : Env) (c : Chunk) : Prop where
   splSize : env.rowBytes * c.spl.mTs.length ≤ c.spl.size
   tsSize : env.seriesBytes * c.ts.rows.length ≤ c.ts.size
 
-theorem Inv.fresh (env : Env) (cache : List (Int × UInt64)) : Inv env { spl := {}, ts := {}, cache := cache } :=
+theorem Inv.fresh (env : Env) (cache : List (Int × UInt64 × Nat)) : Inv env { spl := {}, ts := {}, cache := cache } :=
   ⟨⟨rfl, rfl, rfl, rfl, rfl⟩, by simp, by simp⟩
 
 theorem Inv.init (env : Env) : Inv env {} := Inv.fresh env []
